@@ -391,9 +391,11 @@ def translate() -> tuple[str, dict]:
     et = ent_text(gtree)
     dd_text, dd_side = c11_dedup.generate(tree)
     hp_text, hp_side = c11_helpers.generate(tree)
-    L = ['(* GENERATED by translate/c11_glue.py + c11_records.py + c11_dedup.py + c11_helpers.py from src/srctools/bsp.py, binformat.py, vmf.py. Do not edit. *)',
+    from translate import c11_overlayrec
+    ov_text, ov_side = c11_overlayrec.generate(tree)
+    L = ['(* GENERATED by translate/c11_glue.py + c11_records.py + c11_dedup.py + c11_helpers.py + c11_overlayrec.py from src/srctools/bsp.py, binformat.py, vmf.py. Do not edit. *)',
          'From Coq Require Import List String NArith ZArith.',
-         'From SV Require Import Fmt.BspVisRow Fmt.BspTexStrings Fmt.BspRecords Fmt.BspEntLump Fmt.BspDedup Fmt.BspFlagSplit.',
+         'From SV Require Import Fmt.BspVisRow Fmt.BspTexStrings Fmt.BspRecords Fmt.BspEntLump Fmt.BspDedup Fmt.BspFlagSplit Fmt.BspOverlayRec.',
          'Import ListNotations.', 'Open Scope string_scope.',
          f'(* runlength_decode: {r_src} *)',
          f'Definition vis_row_reader : rexp := {r_expr}.',
@@ -405,13 +407,14 @@ def translate() -> tuple[str, dict]:
          f'Definition tex_codec_same : bool := {"true" if tx["codec_same"] else "false"}.',
          f'Definition ent_cfg : entcfg := ({et["key_mode"]}, {et["value_mode"]}, {et["out_name_mode"]}, [{"; ".join(et["out_field_modes"])}]).',
          f'Definition ent_output_sep : N := {et["output_sep"]}%N.',
-         rec_text, dd_text, hp_text, '']
+         rec_text, dd_text, hp_text, ov_text, '']
     side = {'vis_row_reader': r_src, 'vis_row_writer': w_src, 'vis_reader_passes_cluster_count': r_passes,
             'vis_writer_checks_row_length': w_guard, 'textures': tx}
     side['ent_text'] = et
     side.update(rec_side)
     side.update(dd_side)
     side.update(hp_side)
+    side.update(ov_side)
     return '\n'.join(L), side
 
 
